@@ -2,8 +2,17 @@ package main
 
 import (
 	"context"
+	"crypto/ecdsa"
+	"crypto/elliptic"
+	"crypto/tls"
+	"crypto/x509"
+	"crypto/x509/pkix"
+	"encoding/binary"
+	"errors"
 	"fmt"
+	"io"
 	"log/slog"
+	"math/big"
 	"net"
 	"os"
 	"sort"
@@ -12,6 +21,7 @@ import (
 
 	"github.com/google/gopacket"
 	"github.com/scionproto/scion/pkg/addr"
+	"github.com/scionproto/scion/pkg/daemon"
 	"github.com/scionproto/scion/pkg/segment/iface"
 	"github.com/scionproto/scion/pkg/slayers"
 	"github.com/scionproto/scion/pkg/slayers/path/empty"
@@ -21,15 +31,18 @@ import (
 	"example.com/scion-time/core/client"
 	"example.com/scion-time/core/timebase"
 	"example.com/scion-time/net/ntp"
+	"example.com/scion-time/net/nts"
+	"example.com/scion-time/net/ntske"
+	"example.com/scion-time/net/scion"
 	"example.com/scion-time/net/udp"
 
 	"verifharness/lib"
 )
 
 const (
-	maxPaths   = 12
-	maxFp      = 7
-	maxClients = 8
+	maxPaths   = 128 // sockets of the peer = paths that can be offered in one round
+	maxFp      = 127
+	maxClients = 24 // told apart by their DSCP value (6 bits)
 	serverPort = 10123
 	noPathMsg  = "failed to measure clock offset: no path"
 	noMeasMsg  = "failed to measure clock offset: no successful measurement"
@@ -56,6 +69,11 @@ type capHandler struct {
 func (h *capHandler) Enabled(_ context.Context, l slog.Level) bool { return l >= slog.LevelInfo }
 func (h *capHandler) Handle(_ context.Context, r slog.Record) error {
 	if r.Message != "failed to measure clock offset" {
+		if debugLog {
+			s := r.Message
+			r.Attrs(func(a slog.Attr) bool { s += " " + a.Key + "=" + a.Value.String(); return true })
+			fmt.Fprintln(os.Stderr, "LOG", time.Now().Format("15:04:05.000"), s)
+		}
 		return nil
 	}
 	r.Attrs(func(a slog.Attr) bool {
@@ -77,6 +95,8 @@ func (h *capHandler) take() []string {
 	h.errs = nil
 	return e
 }
+
+var debugLog = os.Getenv("C15_DEBUG") != ""
 
 const expectedExchangeError = "unexpected response structure"
 
@@ -109,9 +129,12 @@ func (f *recFilter) Reset() {
 // every client (told apart by the DSCP value in the SCION header) arrives at.
 type peer struct {
 	mu    sync.Mutex
-	ip    net.IP
+	ip    net.IP // 4-byte form
 	socks []*net.UDPConn
 	ports []int
+	// the same on the IPv6 loopback address, for histories with NTS clients (see runHist); nil if there is none
+	ip6    net.IP
+	ports6 []int
 	// per round
 	modes [][]int64          // per client: behaviour per request (0 conformant, 1 basic reply, 2 rejected reply)
 	nreq  []int              // per client: requests seen this round
@@ -119,6 +142,12 @@ type peer struct {
 	forms [][]int64          // per client: form of every request (1 interleaved, 0 basic)
 	txOf  []map[ntp.Time64]ntp.Time64 // per client: receive stamp -> transmit stamp of earlier replies
 	bad   int
+	// NTS: the key exchange server of the peer and the keys of every session it served
+	keLn   net.Listener
+	kePort int
+	sess   map[uint64]ntske.Data
+	nsess  uint64
+	ntsOK  int // authenticated NTS requests answered
 }
 
 func ownAddr() net.IP {
@@ -127,7 +156,7 @@ func ownAddr() net.IP {
 }
 
 func newPeer() *peer {
-	p := &peer{ip: ownAddr()}
+	p := &peer{ip: ownAddr().To4()}
 	for k := 0; k < maxPaths; k++ {
 		c, err := net.ListenUDP("udp4", &net.UDPAddr{IP: p.ip, Port: 0})
 		if err != nil {
@@ -137,7 +166,104 @@ func newPeer() *peer {
 		p.ports = append(p.ports, c.LocalAddr().(*net.UDPAddr).Port)
 		go p.serve(k, c)
 	}
+	for k := 0; k < maxPaths; k++ {
+		c, err := net.ListenUDP("udp6", &net.UDPAddr{IP: net.IPv6loopback, Port: 0})
+		if err != nil {
+			p.ports6 = nil
+			break
+		}
+		p.ip6 = net.IPv6loopback
+		p.ports6 = append(p.ports6, c.LocalAddr().(*net.UDPAddr).Port)
+		go p.serve(k, c)
+	}
 	return p
+}
+
+const cookieLen = 64
+
+func selfSigned() tls.Certificate {
+	key, err := ecdsa.GenerateKey(elliptic.P256(), realReader)
+	if err != nil {
+		panic(err)
+	}
+	tmpl := x509.Certificate{
+		SerialNumber: big.NewInt(15),
+		Subject:      pkix.Name{CommonName: "c15.test"},
+		NotBefore:    time.Now().Add(-time.Hour),
+		NotAfter:     time.Now().Add(48 * time.Hour),
+		KeyUsage:     x509.KeyUsageDigitalSignature,
+		ExtKeyUsage:  []x509.ExtKeyUsage{x509.ExtKeyUsageServerAuth},
+		DNSNames:     []string{"c15.test"},
+	}
+	der, err := x509.CreateCertificate(realReader, &tmpl, &tmpl, &key.PublicKey, key)
+	if err != nil {
+		panic(err)
+	}
+	return tls.Certificate{Certificate: [][]byte{der}, PrivateKey: key}
+}
+
+// startKE starts the peer's NTS key exchange server (TLS over TCP): every exchange gets eight cookies that
+// name the session, and the address and port the NTP requests are addressed to.
+func (p *peer) startKE() {
+	if p.ports6 == nil {
+		return
+	}
+	ln, err := tls.Listen("tcp6", (&net.TCPAddr{IP: p.ip6, Port: 0}).String(), &tls.Config{
+		Certificates: []tls.Certificate{selfSigned()}, MinVersion: tls.VersionTLS13, NextProtos: []string{"ntske/1"},
+		Rand: realReader})
+	if err != nil {
+		panic(err)
+	}
+	p.keLn = ln
+	p.kePort = ln.Addr().(*net.TCPAddr).Port
+	p.sess = map[uint64]ntske.Data{}
+	go func() {
+		for {
+			c, err := ln.Accept()
+			if err != nil {
+				return
+			}
+			go func(c net.Conn) {
+				defer c.Close()
+				tc := c.(*tls.Conn)
+				_ = tc.SetDeadline(time.Now().Add(20 * time.Second))
+				if err := tc.Handshake(); err != nil {
+					return
+				}
+				req := make([]byte, 16)
+				if _, err := io.ReadFull(tc, req); err != nil {
+					return
+				}
+				var d ntske.Data
+				if err := ntske.ExportKeys(tc.ConnectionState(), &d); err != nil {
+					return
+				}
+				p.mu.Lock()
+				p.nsess++
+				id := p.nsess
+				p.sess[id] = d
+				p.mu.Unlock()
+				var msg ntske.ExchangeMsg
+				msg.AddRecord(ntske.NextProto{NextProto: ntske.NTPv4})
+				msg.AddRecord(ntske.Algorithm{Algo: []uint16{ntske.AES_SIV_CMAC_256}})
+				for i := 0; i < 8; i++ {
+					ck := make([]byte, cookieLen)
+					binary.BigEndian.PutUint64(ck, id)
+					realReader.Read(ck[8:])
+					msg.AddRecord(ntske.Cookie{Cookie: ck})
+				}
+				msg.AddRecord(ntske.Server{Addr: []byte(p.ip6.String())})
+				msg.AddRecord(ntske.Port{Port: uint16(serverPort)})
+				msg.AddRecord(ntske.End{})
+				buf, err := msg.Pack()
+				if err != nil {
+					return
+				}
+				_, _ = tc.Write(buf.Bytes())
+				_, _ = tc.Read(req) // wait for the client to close
+			}(c)
+		}
+	}()
 }
 
 func (p *peer) newRound(modes [][]int64, fresh bool) {
@@ -149,6 +275,7 @@ func (p *peer) newRound(modes [][]int64, fresh bool) {
 	p.hops = make([][]int, n)
 	p.forms = make([][]int64, n)
 	if fresh {
+		p.sess = map[uint64]ntske.Data{} // sessions of earlier histories are over
 		p.txOf = make([]map[ntp.Time64]ntp.Time64, n)
 		for i := range p.txOf {
 			p.txOf[i] = map[ntp.Time64]ntp.Time64{}
@@ -190,6 +317,29 @@ func (p *peer) handle(k int, b []byte, rx time.Time) []byte {
 	ci := int(scn.TrafficClass >> 2)
 	p.mu.Lock()
 	defer p.mu.Unlock()
+	// a request with extension fields is an NTS request: it must carry a cookie of one of the peer's key
+	// exchanges and be authentic under that session's C2S key
+	var ntsreq nts.Packet
+	var sess ntske.Data
+	isNTS := len(u.Payload) > 48
+	if isNTS {
+		if err := nts.DecodePacket(&ntsreq, u.Payload); err != nil {
+			p.bad++
+			return nil
+		}
+		ck, err := ntsreq.FirstCookie()
+		if err != nil || len(ck) != cookieLen {
+			p.bad++
+			return nil
+		}
+		var ok bool
+		sess, ok = p.sess[binary.BigEndian.Uint64(ck)]
+		if !ok || nts.ProcessRequest(u.Payload, sess.C2sKey, &ntsreq) != nil {
+			p.bad++
+			return nil
+		}
+		p.ntsOK++
+	}
 	if ci >= len(p.nreq) {
 		p.bad++
 		return nil
@@ -236,6 +386,20 @@ func (p *peer) handle(k int, b []byte, rx time.Time) []byte {
 
 	var payload []byte
 	ntp.EncodePacket(&payload, &resp)
+	if isNTS {
+		ck, _ := ntsreq.FirstCookie()
+		var cookies [][]byte
+		for i := 0; i < 1+len(ntsreq.CookiePlaceholders); i++ {
+			c := make([]byte, cookieLen)
+			copy(c, ck[:8])
+			realReader.Read(c[8:])
+			cookies = append(cookies, c)
+		}
+		ntsresp := nts.NewResponsePacket(cookies, sess.S2cKey, ntsreq.UniqueID.ID)
+		// the authenticator's nonce is drawn from crypto/rand.Reader, which is the scripted tape during a
+		// round: reads of other sizes than 4 bytes are served from the real generator (tapeReader.only4)
+		nts.EncodePacket(&payload, &ntsresp)
+	}
 	var out slayers.SCION
 	out.Version = 0
 	out.TrafficClass = scn.TrafficClass
@@ -261,17 +425,48 @@ func (p *peer) handle(k int, b []byte, rx time.Time) []byte {
 
 // ---- histories ----
 
+type clientCfg struct {
+	en   bool // InterleavedMode
+	hasf bool // has a (recording) filter
+	nts  bool // Auth.NTSEnabled
+}
+
+// one answer of the scripted daemon: the paths to one destination IA
+type answerIn struct {
+	ia  int64
+	ok  bool    // false: the lookup fails
+	fps []int64 // fingerprint id of every path
+}
+
+type refreshIn struct {
+	liaOK   bool // false: the daemon's LocalIA fails
+	answers []answerIn
+}
+
 type roundIn struct {
-	fps   []int64   // fingerprint id of every offered path
-	d     uint32    // default word
-	tape  []uint32  // scripted random words
-	modes [][]int64 // per client, per request
-	vals  [][]int64 // per client, per accepted exchange: what its filter returns
+	refresh *refreshIn // pather histories: a refresh of the Pather before the round (nil: none)
+	fps     []int64    // plain histories: fingerprint id of every offered path
+	d       uint32     // default word
+	tape    []uint32   // scripted random words
+	modes   [][]int64  // per client, per request
+	vals    [][]int64  // per client, per accepted exchange: what its filter returns
 }
 
 type histIn struct {
-	en, hasf []bool
-	rounds   []roundIn
+	cfg    []clientCfg
+	pather bool    // the offered paths come from a scion.Pather fed by a scripted daemon
+	dstIAs []int64 // pather histories: the destination IAs the Pather is started with
+	q      int64   // pather histories: the IA of the server
+	rounds []roundIn
+}
+
+func (h *histIn) anyNTS() bool {
+	for _, c := range h.cfg {
+		if c.nts {
+			return true
+		}
+	}
+	return false
 }
 
 var (
@@ -280,28 +475,79 @@ var (
 	fpIDs   map[string]int64
 	capH    = &capHandler{}
 	dlog    = slog.New(capH)
+	quiet   = slog.New(nullHandler{})
 	disturbed = map[string]int{}
 	roundsRun int
 	slowRounds, abandoned, deadlineHits int
 )
 
+type nullHandler struct{}
+
+func (nullHandler) Enabled(context.Context, slog.Level) bool  { return false }
+func (nullHandler) Handle(context.Context, slog.Record) error { return nil }
+func (h nullHandler) WithAttrs([]slog.Attr) slog.Handler      { return h }
+func (h nullHandler) WithGroup(string) slog.Handler           { return h }
+
+// offHandler is the log handler of a client without a filter: the offset such a client reports is the raw
+// offset of its exchange, which the client logs ("evaluated response", at debug level) on its own logger.
+type offHandler struct {
+	mu   sync.Mutex
+	offs []int64
+}
+
+func (h *offHandler) Enabled(_ context.Context, l slog.Level) bool { return true }
+func (h *offHandler) Handle(_ context.Context, r slog.Record) error {
+	if r.Message != "evaluated response" {
+		return nil
+	}
+	r.Attrs(func(a slog.Attr) bool {
+		if a.Key == "clock offset" {
+			h.mu.Lock()
+			h.offs = append(h.offs, int64(a.Value.Duration()))
+			h.mu.Unlock()
+			return false
+		}
+		return true
+	})
+	return nil
+}
+func (h *offHandler) WithAttrs([]slog.Attr) slog.Handler { return h }
+func (h *offHandler) WithGroup(string) slog.Handler      { return h }
+func (h *offHandler) take() []int64 {
+	h.mu.Lock()
+	defer h.mu.Unlock()
+	o := h.offs
+	h.offs = nil
+	return o
+}
+
 const roundTimeout = 10 * time.Second
 
-func mkPath(k int, fp int64) snet.Path {
+// the IA with id n (ids of destination IAs in pather histories; id 0 is also the server's IA of a plain
+// history with NTS clients, where the server must be in another AS than the client)
+func iaOf(n int64) addr.IA { return addr.MustIAFrom(1, addr.AS(0xff0000000200+uint64(n))) }
+
+func mkPathTo(dst addr.IA, k int, fp int64, v6 bool) snet.Path {
 	p := spath.Path{
-		Src: ia, Dst: ia,
+		Src: ia, Dst: dst,
 		DataplanePath: spath.Empty{},
 		NextHop:       &net.UDPAddr{IP: thePeer.ip, Port: thePeer.ports[k]},
 	}
+	if v6 {
+		p.NextHop = &net.UDPAddr{IP: thePeer.ip6, Port: thePeer.ports6[k]}
+	}
 	if fp != 0 {
-		p.Meta = snet.PathMetadata{Interfaces: []snet.PathInterface{{ID: iface.ID(fp), IA: ia}, {ID: iface.ID(100 + fp), IA: ia}}}
+		p.Meta = snet.PathMetadata{Interfaces: []snet.PathInterface{{ID: iface.ID(fp), IA: ia}, {ID: iface.ID(1000 + fp), IA: ia}}}
 	}
 	return p
 }
 
+func mkPath(k int, fp int64) snet.Path { return mkPathTo(ia, k, fp, false) }
+
 func setupHist() {
 	timebase.RegisterClock(sysClock{})
 	thePeer = newPeer()
+	thePeer.startKE()
 	fpIDs = map[string]int64{}
 	for f := int64(0); f <= maxFp; f++ {
 		fpIDs[snet.Fingerprint(mkPath(0, f)).String()] = f
@@ -315,6 +561,55 @@ func fpID(s string) int64 {
 	return -1
 }
 
+func sockOf(p snet.Path) int64 {
+	nh := p.UnderlayNextHop()
+	if nh == nil {
+		return -1
+	}
+	ports := thePeer.ports
+	if nh.IP.To4() == nil {
+		ports = thePeer.ports6
+	}
+	for k, port := range ports {
+		if port == nh.Port {
+			return int64(k)
+		}
+	}
+	return -1
+}
+
+// fakeDaemon is the scripted daemon.Connector of one refresh.
+type fakeDaemon struct {
+	daemon.Connector
+	liaOK   bool
+	answers map[addr.IA][]snet.Path
+	fails   map[addr.IA]bool
+	odd     int // lookups with another source than the local IA or without the refresh flag
+}
+
+var errDaemon = errors.New("scripted daemon: lookup failed")
+
+func (f *fakeDaemon) LocalIA(ctx context.Context) (addr.IA, error) {
+	if !f.liaOK {
+		return 0, errDaemon
+	}
+	return ia, nil
+}
+
+func (f *fakeDaemon) Paths(ctx context.Context, dst, src addr.IA, fl daemon.PathReqFlags) ([]snet.Path, error) {
+	if src != ia {
+		f.odd++
+		return nil, errDaemon // a daemon has no paths from another AS than its own
+	}
+	if !fl.Refresh {
+		f.odd++
+	}
+	if f.fails[dst] {
+		return nil, errDaemon
+	}
+	return append([]snet.Path(nil), f.answers[dst]...), nil
+}
+
 func i64sStr(xs []int64) string { return lib.IL(xs) }
 func nested(xss [][]int64) string {
 	s := make([]string, len(xss))
@@ -325,33 +620,106 @@ func nested(xss [][]int64) string {
 }
 
 func (h *histIn) argsStr(nrounds int) string {
-	cfg := make([]string, len(h.en))
-	for i := range h.en {
-		cfg[i] = lib.L(lib.Bool(h.en[i]), lib.Bool(h.hasf[i]))
+	cfg := make([]string, len(h.cfg))
+	for i, c := range h.cfg {
+		cfg[i] = lib.L(lib.Bool(c.en), lib.Bool(c.hasf), lib.Bool(c.nts))
 	}
 	rs := make([]string, nrounds)
 	for i := 0; i < nrounds; i++ {
 		r := &h.rounds[i]
-		rs[i] = lib.L(lib.IL(r.fps), lib.U(uint64(r.d)), wordsStr(r.tape), nested(r.modes), nested(r.vals))
+		first := lib.IL(r.fps)
+		if h.pather {
+			first = lib.L()
+			if r.refresh != nil {
+				as := make([]string, len(r.refresh.answers))
+				for j, a := range r.refresh.answers {
+					as[j] = lib.L(lib.I(a.ia), lib.Bool(a.ok), lib.IL(a.fps))
+				}
+				first = lib.L(lib.Bool(r.refresh.liaOK), lib.L(as...))
+			}
+		}
+		rs[i] = lib.L(first, lib.U(uint64(r.d)), wordsStr(r.tape), nested(r.modes), nested(r.vals))
+	}
+	if h.pather {
+		return lib.V(lib.L(cfg...), lib.IL(h.dstIAs), lib.I(h.q), lib.L(rs...))
 	}
 	return lib.V(lib.L(cfg...), lib.L(rs...))
 }
 
+func (h *histIn) kind() string {
+	if !h.pather {
+		return "mp.hist"
+	}
+	n := 0
+	for _, d := range h.dstIAs {
+		if d == h.q {
+			n++
+		}
+	}
+	if n > 1 {
+		return "mp.pather.dupia" // the server's IA is listed more than once
+	}
+	return "mp.pather"
+}
+
+var statKeys = []string{"keep", "keepempty", "ilvreset", "fewpaths", "manypaths", "nopaths", "drawn", "nofilt", "nofiltilv", "nts", "ntsilv",
+	"refresh", "liafail", "lookupfail", "gone", "shared"}
+
 // runHist drives the real MeasureClockOffsetSCION through the rounds of h and writes one case.
 func runHist(tags string, h *histIn) {
-	nc := len(h.en)
+	nc := len(h.cfg)
 	ntpcs := make([]*client.SCIONClient, nc)
 	filters := make([]*recFilter, nc)
+	offH := make([]*offHandler, nc)
 	for i := 0; i < nc; i++ {
-		c := &client.SCIONClient{Log: dlog, DSCP: uint8(i), InterleavedMode: h.en[i]}
-		if h.hasf[i] {
+		c := &client.SCIONClient{Log: dlog, DSCP: uint8(i), InterleavedMode: h.cfg[i].en}
+		if h.cfg[i].hasf {
 			filters[i] = &recFilter{}
 			c.Filter = filters[i]
+		} else {
+			offH[i] = &offHandler{}
+			c.Log = slog.New(offH[i])
+		}
+		if h.cfg[i].nts {
+			c.Auth.NTSEnabled = true
+			c.Auth.NTSKEFetcher.Log = quiet
+			c.Auth.NTSKEFetcher.TLSConfig = tls.Config{InsecureSkipVerify: true, ServerName: thePeer.ip6.String(),
+				MinVersion: tls.VersionTLS13, Rand: realReader}
+			c.Auth.NTSKEFetcher.Port = fmt.Sprint(thePeer.kePort)
 		}
 		ntpcs[i] = c
 	}
-	laddr := udp.UDPAddr{IA: ia, Host: &net.UDPAddr{IP: thePeer.ip, Port: 0}}
-	raddr := udp.UDPAddr{IA: ia, Host: &net.UDPAddr{IP: thePeer.ip, Port: serverPort}}
+	// the server is in the client's AS (the paths are empty paths) unless the paths come from a Pather or a
+	// client uses NTS: an NTS client replaces the path to a server in its own AS by the direct one
+	dstIA := ia
+	if h.pather {
+		dstIA = iaOf(h.q)
+	} else if h.anyNTS() {
+		dstIA = iaOf(0)
+	}
+	// All clients of a round share remoteAddr.Host, and every exchange writes it: Host.IP = Host.IP.To4() if
+	// that is not nil, and, with NTS, Host.IP = net.ParseIP(<server named by the key exchange>) before
+	// (client_scion.go).  With an IPv4 server the slice header then alternates between the 16-byte and the
+	// 4-byte form while other clients read it (a data race: a torn read gives 0.0.0.0, the reply is dropped as
+	// coming from an unexpected source and the client waits for its deadline).  The harness keeps these writes
+	// idempotent: the IPv4 address is handed over in 4-byte form, and histories with NTS clients run on the IPv6
+	// loopback address, where To4 is nil and ParseIP always yields the same bytes.
+	v6 := h.anyNTS()
+	hostIP := thePeer.ip
+	if v6 {
+		hostIP = thePeer.ip6
+	}
+	laddr := udp.UDPAddr{IA: ia, Host: &net.UDPAddr{IP: hostIP, Port: 0}}
+	raddr := udp.UDPAddr{IA: dstIA, Host: &net.UDPAddr{IP: hostIP, Port: serverPort}}
+	var pather *scion.Pather
+	var dstIAs []addr.IA
+	if h.pather {
+		pather = scion.VerifNewPather(quiet)
+		for _, d := range h.dstIAs {
+			dstIAs = append(dstIAs, iaOf(d))
+		}
+	}
+	var truth []int64 // pather histories: fingerprints of the paths the daemon last reported for the server's IA
 
 	var outs []string
 	stat := map[string]bool{}
@@ -372,20 +740,80 @@ func runHist(tags string, h *histIn) {
 				filters[i].script = r.vals[i]
 				filters[i].vals = nil
 				filters[i].resets = 0
+			} else {
+				offH[i].take()
 			}
 		}
 		thePeer.newRound(r.modes, ri == 0)
-		ps := make([]snet.Path, len(r.fps))
-		for k, f := range r.fps {
-			ps[k] = mkPath(k, f)
+		var ps []snet.Path
+		var offered []string
+		var ofps []int64 // fingerprint of the path behind every socket offered in this round
+		if h.pather {
+			if r.refresh != nil {
+				fd := &fakeDaemon{liaOK: r.refresh.liaOK, answers: map[addr.IA][]snet.Path{}, fails: map[addr.IA]bool{}}
+				k := 0
+				for _, a := range r.refresh.answers {
+					if !a.ok {
+						fd.fails[iaOf(a.ia)] = true
+						stat["lookupfail"] = true
+						continue
+					}
+					for _, f := range a.fps {
+						fd.answers[iaOf(a.ia)] = append(fd.answers[iaOf(a.ia)], mkPathTo(iaOf(a.ia), k, f, v6))
+						k++
+					}
+				}
+				scion.VerifUpdate(context.Background(), pather, fd, dstIAs)
+				stat["refresh"] = true
+				if !r.refresh.liaOK {
+					stat["liafail"] = true
+				} else {
+					var nt []int64
+					for _, a := range r.refresh.answers {
+						if a.ia == h.q && a.ok {
+							nt = a.fps
+						}
+					}
+					listed := false
+					for _, d := range h.dstIAs {
+						listed = listed || d == h.q
+					}
+					if !listed {
+						nt = nil
+					}
+					if len(nt) < len(truth) {
+						stat["gone"] = true
+					}
+					truth = nt
+				}
+				if fd.odd > 0 {
+					tags += ",oddlookup"
+				}
+			}
+			ps = pather.Paths(dstIA)
+			ofps = make([]int64, maxPaths)
+			for _, p := range ps {
+				k, f := sockOf(p), fpID(snet.Fingerprint(p).String())
+				offered = append(offered, lib.L(lib.I(k), lib.I(f)))
+				if k >= 0 {
+					ofps[k] = f
+				}
+			}
+		} else {
+			ps = make([]snet.Path, len(r.fps))
+			for k, f := range r.fps {
+				ps[k] = mkPathTo(dstIA, k, f, v6)
+			}
+			ofps = r.fps
 		}
+		noffered := len(ps)
 		capH.take()
 		roundsRun++
 		start := time.Now()
 		var off time.Duration
 		var err error
 		panicked := false
-		t := withTape(r.tape, r.d, func() {
+		t := withTape4(r.tape, r.d, func() {
 			ctx, cancel := context.WithTimeout(context.Background(), roundTimeout)
 			defer cancel()
 			defer func() {
@@ -397,7 +825,11 @@ func runHist(tags string, h *histIn) {
 		})
 		hitDeadline := time.Since(start) >= roundTimeout
 		unexpected := ""
-		for _, e := range capH.take() {
+		errsSeen := capH.take()
+		if os.Getenv("C15_DEBUG") != "" && time.Since(start) >= roundTimeout {
+			fmt.Fprintf(os.Stderr, "DEADLINE errors: %q\n", errsSeen)
+		}
+		for _, e := range errsSeen {
 			if e != expectedExchangeError {
 				unexpected = e
 			}
@@ -410,6 +842,11 @@ func runHist(tags string, h *histIn) {
 			// the round did not end before its context did although every request is answered at once:
 			// recorded as it is (the clients that never probed show up as non-participants)
 			deadlineHits++
+			if os.Getenv("C15_DEBUG") != "" {
+				thePeer.mu.Lock()
+				fmt.Fprintf(os.Stderr, "DEADLINE round %d err=%v nreq=%v hops=%v bad=%d cfg=%v\n  args=%s\n", ri, err, thePeer.nreq, thePeer.hops, thePeer.bad, h.cfg, h.argsStr(ri+1))
+				thePeer.mu.Unlock()
+			}
 		} else if wall := time.Now().Round(0).Sub(histWall); time.Since(histStart) > 2*time.Second || wall > 2*time.Second || wall < 0 {
 			// every earlier exchange of this history is at most this old; beyond 2 s the 3 s interleaving
 			// window of a client may have passed and the request forms are no longer determined by the
@@ -433,6 +870,7 @@ func runHist(tags string, h *histIn) {
 		}
 		thePeer.mu.Lock()
 		cl := make([]string, nc)
+		used := map[int64]int{}
 		for i := 0; i < nc; i++ {
 			hs := map[int]bool{}
 			for _, k := range thePeer.hops[i] {
@@ -441,6 +879,7 @@ func runHist(tags string, h *histIn) {
 			var hl []int64
 			for k := range hs {
 				hl = append(hl, int64(k))
+				used[int64(k)]++
 			}
 			sort.Slice(hl, func(a, b int) bool { return hl[a] < hl[b] })
 			var vals []int64
@@ -449,35 +888,60 @@ func runHist(tags string, h *histIn) {
 				vals = filters[i].vals
 				resets = filters[i].resets
 			} else {
-				// without a filter the measured offsets are not scripted; record how many exchanges were
-				// accepted by giving each the value 0 ... not observable: leave empty
-				vals = nil
+				// without a filter the client reports the raw offsets of its accepted exchanges
+				vals = offH[i].take()
 			}
 			postIlv := ntpcs[i].InInterleavedMode()
 			postFp := fpID(ntpcs[i].InterleavedModePath())
 			cl[i] = lib.L(lib.IL(hl), lib.I(int64(resets)), lib.IL(thePeer.forms[i]), lib.IL(vals), lib.Bool(postIlv), lib.I(postFp))
 			// statistics for the tags
-			if preIlv[i] && len(hl) == 1 && r.fps[hl[0]] == preFp[i] && resets == 0 {
+			kept := preIlv[i] && len(hl) == 1 && int(hl[0]) < len(ofps) && ofps[hl[0]] == preFp[i] &&
+				len(thePeer.forms[i]) > 0 && thePeer.forms[i][0] == 1
+			if kept && (resets == 0) {
 				stat["keep"] = true
 				if preFp[i] == 0 {
 					stat["keepempty"] = true
 				}
+				if filters[i] == nil {
+					stat["nofiltilv"] = true
+				}
+				if h.cfg[i].nts {
+					stat["ntsilv"] = true
+				}
 			}
-			if preIlv[i] && resets > 0 {
+			if preIlv[i] && (resets > 0 || (filters[i] == nil && !kept)) {
 				stat["ilvreset"] = true
+			}
+			if filters[i] == nil && len(vals) > 0 {
+				stat["nofilt"] = true
+			}
+			if h.cfg[i].nts && len(vals) > 0 {
+				stat["nts"] = true
 			}
 		}
 		thePeer.mu.Unlock()
-		if nc > len(r.fps) {
+		for _, n := range used {
+			if n > 1 {
+				stat["shared"] = true // two clients probed over the same path
+			}
+		}
+		if nc > noffered {
 			stat["fewpaths"] = true
 		}
-		if len(r.fps) == 0 {
+		if noffered >= 40 {
+			stat["manypaths"] = true
+		}
+		if noffered == 0 {
 			stat["nopaths"] = true
 		}
 		if t.pos > 0 {
 			stat["drawn"] = true
 		}
-		outs = append(outs, lib.L(lib.L(cl...), lib.I(int64(cls)), lib.I(int64(off)), lib.I(int64(t.pos))))
+		ro := []string{lib.L(cl...), lib.I(int64(cls)), lib.I(int64(off)), lib.I(int64(t.pos))}
+		if h.pather {
+			ro = append([]string{lib.L(offered...)}, ro...)
+		}
+		outs = append(outs, lib.L(ro...))
 		done++
 		if panicked || hitDeadline {
 			break // the clients' state is no longer defined by the history
@@ -487,27 +951,36 @@ func runHist(tags string, h *histIn) {
 		abandoned++
 		return
 	}
-	for _, k := range []string{"keep", "keepempty", "ilvreset", "fewpaths", "nopaths", "drawn"} {
+	for _, k := range statKeys {
 		if stat[k] {
 			tags += "," + k
 		}
 	}
-	if stat["keep"] && stat["ilvreset"] && stat["drawn"] {
+	if h.pather {
+		// non-trivial: a refresh took paths away from a client in interleaved mode and random words were consumed
+		if stat["refresh"] && stat["keep"] && stat["ilvreset"] && stat["drawn"] {
+			tags += ",nt"
+		}
+	} else if stat["keep"] && stat["ilvreset"] && stat["drawn"] {
 		tags += ",nt"
 	}
-	w.Case("mp.hist", tags, h.argsStr(done), lib.L(outs...))
+	w.Case(h.kind(), tags, h.argsStr(done), lib.L(outs...))
 }
 
-func replayHist(tags, args string) {
-	vs := parseValues(args)
-	h := &histIn{}
-	for _, c := range vs[0].l {
-		h.en = append(h.en, c.l[0].i64() != 0)
-		h.hasf = append(h.hasf, c.l[1].i64() != 0)
-	}
-	for _, rv := range vs[1].l {
+func parseRounds(h *histIn, rvs []val) {
+	for _, rv := range rvs {
 		var r roundIn
-		r.fps = rv.l[0].i64s()
+		if h.pather {
+			if len(rv.l[0].l) > 0 {
+				rf := &refreshIn{liaOK: rv.l[0].l[0].i64() != 0}
+				for _, a := range rv.l[0].l[1].l {
+					rf.answers = append(rf.answers, answerIn{ia: a.l[0].i64(), ok: a.l[1].i64() != 0, fps: a.l[2].i64s()})
+				}
+				r.refresh = rf
+			}
+		} else {
+			r.fps = rv.l[0].i64s()
+		}
 		r.d = uint32(rv.l[1].u64())
 		for _, x := range rv.l[2].l {
 			r.tape = append(r.tape, uint32(x.u64()))
@@ -520,6 +993,26 @@ func replayHist(tags, args string) {
 		}
 		h.rounds = append(h.rounds, r)
 	}
+}
+
+func replayHist(kind, tags, args string) {
+	vs := parseValues(args)
+	h := &histIn{}
+	for _, c := range vs[0].l {
+		cc := clientCfg{en: c.l[0].i64() != 0, hasf: c.l[1].i64() != 0}
+		if len(c.l) > 2 {
+			cc.nts = c.l[2].i64() != 0
+		}
+		h.cfg = append(h.cfg, cc)
+	}
+	if kind == "mp.hist" {
+		parseRounds(h, vs[1].l)
+	} else {
+		h.pather = true
+		h.dstIAs = vs[1].i64s()
+		h.q = vs[2].i64()
+		parseRounds(h, vs[3].l)
+	}
 	// strip the statistics tags: they are recomputed
 	runHist(baseTags(tags), h)
 }
@@ -527,9 +1020,11 @@ func replayHist(tags, args string) {
 func baseTags(tags string) string {
 	out := ""
 	for _, t := range splitTags(tags) {
-		switch t {
-		case "keep", "keepempty", "ilvreset", "fewpaths", "nopaths", "drawn", "nt", "":
-		default:
+		drop := t == "" || t == "nt" || t == "oddlookup"
+		for _, k := range statKeys {
+			drop = drop || t == k
+		}
+		if !drop {
 			if out != "" {
 				out += ","
 			}
